@@ -377,7 +377,7 @@ func (p *VipnodePool) requestHosts(ctx context.Context, nodeID string, numReques
 	}
 
 	var hosts []store.Node
-	if numRequestHosts == 0 {
+	if numRequestHosts <= 0 {
 		// Nothing left to do
 		return hosts, nil
 	}
@@ -411,6 +411,11 @@ func (p *VipnodePool) requestHosts(ctx context.Context, nodeID string, numReques
 	remotes := make([]hostService, 0, len(r))
 	p.mu.Lock()
 	for _, node := range r {
+		if len(remotes) >= numRequestHosts {
+			// We over-fetch candidates to make up for the skipped ones, but
+			// never whitelist (or return) more hosts than were requested.
+			break
+		}
 		if _, skip := skipPeers[node.ID]; skip {
 			// Skip peers we're already connected to, and ourself
 			continue
